@@ -548,6 +548,20 @@ def _vm_pat(atom, pat, cell):
     return None
 
 
+_SKIP_HELPERS = []
+
+
+def _find_skip_helpers(syn, file_suffix):
+    """local helper fns that parse a FieldAttr and hand back its `skip` flag"""
+    out = []
+    for f in syn.fns:
+        if f["file"].endswith(file_suffix) and "bool" in f["sig"] and any(e["kind"] == "field" and e["member"] == "skip" for e in f["events"]) \
+                and any(e["kind"] == "call" and "FieldAttr :: from_attrs" in e["func"] for e in f["events"]) \
+                and not any(e["kind"] == "macro" and e["name"] in QUOTES for e in f["events"]):
+            out.append(f["name"])
+    return out
+
+
 def _vm_guard(g, cell, lets):
     x = S.squash(g)
     neg = False
@@ -558,6 +572,8 @@ def _vm_guard(g, cell, lets):
         val = (cell["F"] == "Unnamed%s" % m.group(2)) if m.group(2) in ("0", "1") else None
     else:
         a = _vm_atom(x, lets)
+        if a is None and _SKIP_HELPERS and re.match(r"^(%s)\(.*\)\??$" % "|".join(_SKIP_HELPERS), x):
+            a = "S"
         if a in ("U", "S"):
             val = cell[a]
         elif a == "IF":
@@ -577,9 +593,15 @@ def _vm_arm_fires(me, arm_idx, cell, lets):
         hit = False
         for alt in S.split_top(arm["pat"], "|"):
             elems = S.tuple_elems(alt)
+            if len(elems) == 1 and len(atoms) > 1 and (S.squash(elems[0]) == "_" or re.match(r"^[a-z_][a-z0-9_]*$", S.squash(elems[0]))):
+                hit = True
+                continue
             if len(elems) != len(atoms):
                 continue
-            res = [_vm_pat(a, pe, cell) for a, pe in zip(atoms, elems)]
+            res = []
+            for a, pe in zip(atoms, elems):
+                sub = [_vm_pat(a, q, cell) for q in S.split_top(pe, "|")]
+                res.append(None if any(x is None for x in sub) else any(sub))
             if any(x is None for x in res):
                 return None
             if all(res):
@@ -607,6 +629,8 @@ def variant_matrix_rule(syn, prop, rule="C01.R3"):
         return r
     lid = lets_ev[0]["id"]
     P = S.squash(pv[0]["pat"])
+    del _SKIP_HELPERS[:]
+    _SKIP_HELPERS.extend(_find_skip_helpers(syn, "types/enum.rs"))
     lets = {S.squash(e["pat"]): e["init"] for e in S.events(fn, "let") if re.match(r"^[a-z_]+$", S.squash(e["pat"]))}
     match_by_id = {e["id"]: e for e in S.events(fn, "match")}
     temps = [e for e in templates(fn) if any(c["k"] == "let" and c["id"] == lid for c in e["ctx"])]
@@ -695,7 +719,8 @@ def enum_flatten_parens_rule(syn, prop, rule="C14.R6"):
         return r
     n = 0
     for e in templates(fn):
-        if not any(c["k"] == "field_init" and S.squash(c["field"]) == "inline_flattened" for c in e["ctx"]):
+        if not any((c["k"] == "field_init" and S.squash(c["field"]) == "inline_flattened") or
+                   (c["k"] == "let" and S.squash(c["pat"]).replace("mut", "") == "inline_flattened") for c in e["ctx"]):
             continue
         fc = S.format_calls(e["tokens"])
         lits = [S.unquote(l) for l, _ in fc if l]
